@@ -1,6 +1,9 @@
 package props
 
 import (
+	"fmt"
+	"strings"
+
 	"gkvverif/harness"
 )
 
@@ -149,6 +152,77 @@ func c05More() []*Scenario {
 	}
 }
 
+// c05Mixes: the product of small thread programs ("for all operation mixes").
+func c05Mixes(readerLen int) *Scenario {
+	type op struct {
+		name string
+		do   func(s *harness.SchedWorld)
+	}
+	mops := []op{
+		{"Set(a)", func(s *harness.SchedWorld) { s.MutSet("m", bs("a"), 2, bs("a1")) }},
+		{"Set(b)", func(s *harness.SchedWorld) { s.MutSet("m", bs("b"), 5, bs("b1")) }},
+		{"Del(c)", func(s *harness.SchedWorld) { s.MutDelete("m", bs("c")) }},
+		{"Evict", func(s *harness.SchedWorld) { s.MutEvict("m") }},
+	}
+	rops := []op{
+		{"Get(a)", func(s *harness.SchedWorld) { s.RGet("m", bs("a")) }},
+		{"Get(c)", func(s *harness.SchedWorld) { s.RGet("m", bs("c")) }},
+		{"Totals", func(s *harness.SchedWorld) { s.RTotals("m") }},
+		{"Min", func(s *harness.SchedWorld) { s.RMinMax("m", false) }},
+		{"Max", func(s *harness.SchedWorld) { s.RMinMax("m", true) }},
+		{"Asc", func(s *harness.SchedWorld) { s.RVisit("m", false, 0) }},
+		{"Desc", func(s *harness.SchedWorld) { s.RVisit("m", true, 0) }},
+		{"AscStop1", func(s *harness.SchedWorld) { s.RVisit("m", false, 1) }},
+		{"KeysDesc", func(s *harness.SchedWorld) { s.RVisitKeyOnly("m", true) }},
+		{"Snapshot", func(s *harness.SchedWorld) { s.RSnapshot("m") }},
+		{"Stats", func(s *harness.SchedWorld) { s.RStats("m") }},
+	}
+	pick := func(ops []op, maxLen int) ([]op, string) {
+		var prog []op
+		var names []string
+		for i := 0; i < maxLen; i++ {
+			alts := len(ops)
+			if i > 0 {
+				alts++ // stop
+			}
+			k := harness.Choose(alts, harness.ClassOp)
+			if i > 0 && k == len(ops) {
+				break
+			}
+			prog = append(prog, ops[k])
+			names = append(names, ops[k].name)
+		}
+		return prog, "[" + strings.Join(names, ",") + "]"
+	}
+	return &Scenario{Name: "mixes",
+		Desc: fmt.Sprintf("every mix: initial store in {flushed and cached, flushed and re-opened} x mutator program of 1..2 operations over {Set a (overwrite), Set b (new), Delete c, EvictSomeItems} x reader program of 1..%d operations over {Get a, Get c, GetTotals, Min, Max, ascending visit, descending visit, visit with early stop, key-only visit, Snapshot+read, AllocStats/Stats} x with or without a concurrent Flush", readerLen),
+		Setup: func(s *harness.SchedWorld) {
+			setup3(harness.Choose(2, harness.ClassOp) == 1)(s)
+		},
+		Dynamic: func(s *harness.SchedWorld) ([]func(s *harness.SchedWorld), string) {
+			mp, mn := pick(mops, 2)
+			rp, rn := pick(rops, readerLen)
+			ths := []func(s *harness.SchedWorld){
+				func(s *harness.SchedWorld) {
+					for _, o := range mp {
+						o.do(s)
+					}
+				},
+				func(s *harness.SchedWorld) {
+					for _, o := range rp {
+						o.do(s)
+					}
+				},
+			}
+			d := "mutator" + mn + " reader" + rn
+			if harness.Choose(2, harness.ClassOp) == 1 {
+				ths = append(ths, func(s *harness.SchedWorld) { s.FFlush() })
+				d += " flusher[Flush]"
+			}
+			return ths, d
+		}}
+}
+
 func c05Profiles(tier string) []Profile {
 	var ps []Profile
 	// interleavings at operation granularity with readers blocked inside their
@@ -156,6 +230,15 @@ func c05Profiles(tier string) []Profile {
 	dr := 6
 	if tier == "thorough" {
 		dr = 7
+	}
+	if tier == "thorough" {
+		mp := c05Mixes(2).Profile(1)
+		mp.ShardLevel = 4
+		ps = append(ps, mp)
+	} else {
+		mp := c05Mixes(1).Profile(1)
+		mp.ShardLevel = 4
+		ps = append(ps, mp)
 	}
 	rp := readersProfile(dr)
 	rp.Name = "S10-paused-readers"
